@@ -179,17 +179,52 @@ class CursorRule(SymRule):
         return ts
 
 
+def discover_cursor(fn, calls):
+    """(base, cursor, limit) variable names shared by the decoder calls of a parser, or None."""
+    subst = unique_defs(fn)
+    trips = set()
+    for c in calls:
+        a = c.a[1:]
+        if len(a) < 5:
+            return None
+        cur = strip(a[3])
+        if cur.k != 'un' or cur.op != '&' or strip(cur.a[0]).k != 'var':
+            return None
+        cname = strip(cur.a[0]).op
+        lim = strip(a[4])
+        if lim.k != 'var':
+            return None
+        src = lin(a[2], None)
+        if src is None:
+            return None
+        bases = [k for k in src.t if k != cname]
+        if len(bases) != 1 or src.t[bases[0]] != 1:
+            return None
+        trips.add((bases[0], cname, lim.op))
+    if len(trips) != 1:
+        return None
+    return list(trips)[0]
+
+
 def cursor_clauses(ck, prog, config, ca='C03-a', cb='C03-b'):
     """Parse-cursor discipline of the four header parsers (shared with C13-d)."""
-    # completeness of the parser table
-    for fn in prog.lib_funcs():
+    # the parser table is discovered: every library function that calls a decoder is a parser, and its base,
+    # cursor and limit are read off its decoder calls (source = base + cursor, &cursor, limit); the frozen table
+    # above only says how many parsers the reference tree has
+    found = {}
+    for fn in sorted(prog.lib_funcs(), key=lambda f: f.qname):
         if fn.name in ('compint_to_int',):
             continue
-        if calls_of(fn, DECODERS) and fn.name not in PARSERS:
-            ck.require(False, 'function %s decodes compressed integers but is not in the parser table' % fn.name)
+        cs = calls_of(fn, DECODERS)
+        if not cs:
+            continue
+        trip = discover_cursor(fn, cs)
+        ck.require(trip is not None, '%s decodes compressed integers but its calls do not share one (base + cursor, '
+                   '&cursor, limit) shape' % fn.name)
+        found[fn.name] = (fn, trip)
+    ck.min_instances('header parsers (functions calling the integer decoder)', len(found), len(PARSERS))
     total_reads = total_adv = total_dec = 0
-    for name, (base, cursor, limit) in sorted(PARSERS.items()):
-        fn = prog.need_func(name)
+    for name, (fn, (base, cursor, limit)) in sorted(found.items()):
         r = CursorRule(prog, fn, base, cursor, limit)
         ck.require(base in r.var and cursor in r.var and limit in r.var,
                    '%s: base/cursor/limit (%s, %s, %s) not found' % (name, base, cursor, limit))
